@@ -3,7 +3,7 @@ H = "harness/C04_alignment.c"
 RP = {"name": "alignment_propagate_replay", "harness": H, "entry": "r_alignment_propagate", "native_replay": True, "canary": False, "allow_no_body": ["*"], "unwind": 7,
       "native_sources": "ALL", "native_exclude": ["ps_alignment.c"]}
 GROUPS = [
-    dict(name="vector_grow_one", harness=H, enforce="vector_grow_one", replace=["__ckd_realloc__"], defines=["VERIF_REALLOC_CONTRACT"], allow_no_body=["*"], min_postconditions=2),
+    dict(name="vector_grow_one", harness=H, enforce="vector_grow_one", replace=["__ckd_realloc__"], defines=["VERIF_REALLOC_CONTRACT"], allow_no_body=["*"], min_postconditions=2, backends=[["--sat-solver", "cadical"]]),
     dict(name="alignment_propagate", harness=H, entry="r_alignment_propagate", allow_no_body=["*"], unwind=7, replay=RP,
          bounded="<= 4 states under <= 3 phones under <= 2 words, symbolic durations / scores / start frames and stale parent values, every parent shape with non-decreasing parent indices"),
 ]
